@@ -61,6 +61,9 @@ pub fn norm_ift(w: &write_fonts::tables::ift::Ift, back: &mut write_fonts::table
 }
 
 mod corpus;
+mod distinct;
+mod distinct2;
+mod distinct3;
 mod gen;
 mod walk;
 
@@ -113,6 +116,28 @@ pub fn roundtrip_with<T>(s: &mut Session, ty: &str, label: &str, v: &T, norm: im
 where
     T: FontWrite + Validate + PartialEq + Debug + for<'a> FontRead<'a>,
 {
+    roundtrip_via(s, ty, label, v, |b| T::read(FontData::new(b)), norm)
+}
+
+/// generator family of a value = first segment of its label (`gen`, `corpus`, `blob`, `probe`, `dx`, …) + `/` + type
+pub fn family_of(ty: &str, label: &str) -> String {
+    let head = label.split(':').next().unwrap_or("");
+    format!("{head}/{ty}")
+}
+
+/// Same oracle for owned types whose reader needs external arguments (hmtx, sbix, …) or that have no `FontRead` impl:
+/// `read` turns the compiled bytes into the owned value (real reader + `to_owned_table`).
+pub fn roundtrip_via<T>(
+    s: &mut Session,
+    ty: &str,
+    label: &str,
+    v: &T,
+    read: impl Fn(&[u8]) -> Result<T, read_fonts::ReadError>,
+    norm: impl Fn(&T, &mut T),
+) -> Option<Vec<u8>>
+where
+    T: FontWrite + Validate + PartialEq + Debug,
+{
     s.count(&format!("values:{ty}"));
     match catch(|| v.validate()) {
         Err(p) => {
@@ -139,7 +164,8 @@ where
         Ok(Ok(b)) => b,
     };
     s.count(&format!("compiled:{ty}"));
-    let back = catch(|| T::read(FontData::new(&b1)));
+    s.count(&format!("family-compiled:{}", family_of(ty, label)));
+    let back = catch(|| read(&b1));
     let v2 = match back {
         Err(p) => {
             s.oracle(&format!("readback-no-panic:{ty}"), false, || format!("{label} {}", short(v)), || p);
@@ -239,6 +265,17 @@ fn run(cfg: &Config, s: &mut Session) {
     }
     if only.is_empty() || only == "gen" {
         gen::run(cfg, s, &mut cx);
+    }
+    if only.is_empty() || only == "dx" {
+        distinct::run(cfg, s, &mut cx);
+    }
+    if only.is_empty() {
+        // every generator family the inventory tie (translate/handwritten_write_cover.json) relies on must have
+        // produced at least one value that validated and compiled
+        for fam in distinct::FAMILIES {
+            let n = s.dist.get(&format!("family-compiled:{fam}")).copied().unwrap_or(0);
+            s.oracle(&format!("family-exercised:{fam}"), n > 0, || fam.to_string(), || "no value of this generator family validated and compiled".into());
+        }
     }
 }
 
